@@ -1171,6 +1171,31 @@ pub fn run(ctx: &mut Ctx) {
         }
     }
 
+    // ---- exact lengths on the internal windows (512: NormalizedReader, 1024: its buffer, 8192: inline
+    //      reads), ending in a lone CR / CR LF / LF / other, so that a held-back CR meets the end of
+    //      the source; through every interface ---------------------------------------------------
+    {
+        let mut j = 0usize;
+        for n in [511usize, 512, 513, 1023, 1024, 1025, 1536, 8191, 8192, 8193] {
+            for end in ["\r", "\r\n", "\n", "x"] {
+                for fill in ["a", "ab\n", "a\r\n"] {
+                    j += 1;
+                    let mut t: String = fill.repeat(n / fill.len() + 1);
+                    t.truncate(n - end.len());
+                    t.push_str(end);
+                    let key = if j % 2 == 0 { &ed4 } else { &ed6 };
+                    let hash = hashes[(j / 2) % 2];
+                    run_detached(&mut env, key, hash, t.as_bytes(), &mut rng, false);
+                    run_cleartext(&mut env, &[(key, hash)], (j % 3) as u8, &t, &mut rng);
+                    if n < 2000 || thorough || j % 3 == 0 {
+                        run_builder(&mut env, &[(key, hash)], true, j % 4 == 1, true, t.as_bytes(), &mut rng);
+                    }
+                    env.ctx.stat("gen:window_edges");
+                }
+            }
+        }
+    }
+
     // ---- random above, full alphabet, incl. internal buffer edges (512: NormalizedReader window,
     //      8192: inline verification reads) ------------------------------------------------
     let n_rand = if thorough { 24000 } else { 1800 };
